@@ -63,6 +63,16 @@ def preimage(x, kind, arg):
             raise Refused("too many statistics")
         z = x.derive(stats=x.stats + ("z",), pool=x.pool)
         return z, ["StatXf", {"xf": "drop"}]
+    if kind == "zero-stat-front":
+        if len(x.stats) >= 3 or not x.stats:
+            raise Refused("needs 1-2 statistics")
+        z = x.derive(stats=("z",) + x.stats, pool=x.pool)
+        return z, ["StatXf", {"xf": "drop"}]
+    if kind == "rename":
+        if not x.stats:
+            raise Refused("no statistic to rename")
+        z = x.derive(pool=1 - x.pool)
+        return z, ["StatXf", {"xf": "rename"}]
     if kind == "dup-stat":
         if not x.stats or len(x.stats) >= 3:
             raise Refused("no statistic to duplicate")
@@ -231,7 +241,7 @@ def path_steps(draw):
             else:
                 steps.append(["fwd", draw(gen.unary_desc())])
         else:
-            steps.append(["bwd", draw(st.sampled_from(["pattern", "zero-stat", "dup-stat", "swap", "letter"])), draw(st.integers(0, 7))])
+            steps.append(["bwd", draw(st.sampled_from(["pattern", "zero-stat", "zero-stat-front", "rename", "rename", "dup-stat", "swap", "letter"])), draw(st.integers(0, 7))])
     return steps
 
 
